@@ -105,6 +105,8 @@ async fn run_script(steps: Vec<String>) -> (String, Option<String>) {
     let mut partial_sent = false;
     let mut kinds: Vec<String> = vec![];
     let mut sent_at_start: Vec<usize> = vec![];
+    // responses other than IntermediateResponse sent under each id (an intermediate response is not the answer a single-result operation waits for)
+    let mut results_by_id: std::collections::HashMap<i64, usize> = std::collections::HashMap::new();
     // P:<kind>:<tmo> starts an operation which stops between taking its message id and sending the request to the driver (a caller thread
     // preempted there, while other handles go on); E:<op> lets it continue. gates[op] is the release handle while the operation is held.
     let mut gates: Vec<Option<tokio::sync::oneshot::Sender<()>>> = vec![];
@@ -125,7 +127,7 @@ async fn run_script(steps: Vec<String>) -> (String, Option<String>) {
                 let tmo: Option<Duration> = if f[2] == "-" { None } else if f[2] == "max" { Some(Duration::MAX) } else { Some(Duration::from_millis(f[2].parse().unwrap())) };
                 let kind = f[1].to_string();
                 kinds.push(kind.clone());
-                sent_at_start.push(sent_by_id.get(&(views.len() as i64)).map(|x| x.len()).unwrap_or(0));
+                sent_at_start.push(results_by_id.get(&(views.len() as i64)).copied().unwrap_or(0));
                 match &main {
                     None => { view.lock().unwrap().status = "nohandle".into(); cmds.push(None); tasks.push(tokio::spawn(async {})); op_mid.push(-1); }
                     Some(h) => {
@@ -197,7 +199,7 @@ async fn run_script(steps: Vec<String>) -> (String, Option<String>) {
                 let n = if f[0] == "B" { [bytes.len() / 2, 1, 2, 3, bytes.len() - 1, bytes.len() / 3, 5][(tokn % 7) as usize].clamp(1, bytes.len() - 1) } else { bytes.len() };
                 if f[0] == "B" { partial_sent = true; }
                 if server_open {
-                    if f[0] == "R" { sent_by_id.entry(mid).or_default().push(tokn); }
+                    if f[0] == "R" { sent_by_id.entry(mid).or_default().push(tokn); if f[2] != "i" { *results_by_id.entry(mid).or_default() += 1; } }
                     // deliver in two writes to exercise the framing path as well: the cut is after 1, 2 or 3 bytes (inside the header of a long
                     // message), a third of the way in, or before the last byte
                     let cut = [n / 3, 1, 2, 3, n.saturating_sub(1)][(tokn % 5) as usize].min(n);
@@ -208,7 +210,7 @@ async fn run_script(steps: Vec<String>) -> (String, Option<String>) {
             // L:<mid>:<count>:<first token>  a flood: <count> entries for one search in a single write (more than any bounded queue would hold)
             "L" => {
                 let (mid, count, first): (i64, u64, u64) = (f[1].parse().unwrap(), f[2].parse().unwrap(), f[3].parse().unwrap());
-                if server_open { let mut all = vec![]; for t in first..first + count { all.extend(response_bytes(mid, "e", 3 * t + 1)); sent_by_id.entry(mid).or_default().push(3 * t + 1); } let _ = server.write_all(&all).await; }
+                if server_open { let mut all = vec![]; for t in first..first + count { all.extend(response_bytes(mid, "e", 3 * t + 1)); sent_by_id.entry(mid).or_default().push(3 * t + 1); *results_by_id.entry(mid).or_default() += 1; } let _ = server.write_all(&all).await; }
             }
             "A" => { tokio::time::advance(Duration::from_millis(f[1].parse().unwrap())).await; }
             "N" | "F" | "C" => { let o: usize = f[1].parse().unwrap(); if let Some(Some(tx)) = cmds.get(o) { if tx.send(if f[0] == "N" { Cmd::Next } else if f[0] == "C" { Cmd::NextCancelled } else { Cmd::Finish }).is_ok() { views[o].lock().unwrap().queued += 1; } } }
@@ -221,7 +223,7 @@ async fn run_script(steps: Vec<String>) -> (String, Option<String>) {
                     if cmds[o].as_ref().unwrap().send(Cmd::Via(v2.clone())).is_ok() {
                         views[o].lock().unwrap().queued += 1;
                         views.push(v2); kinds.push("single".into()); gates.push(None); cmds.push(None);
-                        sent_at_start.push(sent_by_id.get(&(views.len() as i64)).map(|x| x.len()).unwrap_or(0));
+                        sent_at_start.push(results_by_id.get(&(views.len() as i64)).copied().unwrap_or(0));
                         op_mid.push(if table_reset { -2 } else { views.len() as i64 });
                         tasks.push(tokio::spawn(std::future::pending::<()>()));
                     }
@@ -230,7 +232,7 @@ async fn run_script(steps: Vec<String>) -> (String, Option<String>) {
                 // several complete responses in ONE write (f[1] = 0) or cut in two at f[1] percent of the burst
                 let mut all = vec![];
                 for part in f[2].split(',') { let g: Vec<&str> = part.split('.').collect(); let (mid, tokn): (i64, u64) = (g[0].parse().unwrap(), g[2].parse().unwrap());
-                    all.extend(response_bytes(mid, g[1], tokn)); if server_open { sent_by_id.entry(mid).or_default().push(tokn); } }
+                    all.extend(response_bytes(mid, g[1], tokn)); if server_open { sent_by_id.entry(mid).or_default().push(tokn); if g[1] != "i" { *results_by_id.entry(mid).or_default() += 1; } } }
                 if server_open { let pct: usize = f[1].parse().unwrap(); let cut = all.len() * pct / 100;
                     if cut > 0 { let _ = server.write_all(&all[..cut]).await; for _ in 0..20 { tokio::task::yield_now().await; } }
                     let _ = server.write_all(&all[cut..]).await; }
@@ -249,7 +251,7 @@ async fn run_script(steps: Vec<String>) -> (String, Option<String>) {
             "H" => { main = None; }
             "E" => { let o: usize = f[1].parse().unwrap(); if let Some(g) = gates.get_mut(o).and_then(|g| g.take()) { { let mut v = views[o].lock().unwrap(); if v.status == "alloc" { v.status = "pending".into(); } }
                 // what was sent under its id while the request had not even left counts as unsolicited, not as its answer
-                sent_at_start[o] = sent_by_id.get(&op_mid[o]).map(|x| x.len()).unwrap_or(0);
+                sent_at_start[o] = results_by_id.get(&op_mid[o]).copied().unwrap_or(0);
                 let _ = g.send(()); } }
             // T:<last>:<ids>  positions the id table; ids "~" = empty, "=" = keep the ids in use now (a faithful picture of the counter having come round)
             "T" => { if let Some(h) = &main { let ids: Vec<i32> = if f[2] == "~" { vec![] } else if f[2] == "=" { table.lock().unwrap().1.iter().copied().collect() } else { f[2].split(',').map(|x| x.parse().unwrap()).collect() }; h.verif_set_id_table(f[1].parse().unwrap(), &ids); table_reset = true; } }
@@ -293,7 +295,7 @@ async fn run_script(steps: Vec<String>) -> (String, Option<String>) {
             }
             // C01: "does not disturb any other operation": on a healthy connection, once the response of a single-result operation has
             // been sent in full (whatever else was sent before it, in whichever read), the operation cannot still be waiting
-            if drv == "running" && !faulted && !partial_sent && v.status == "pending" && kinds[i] == "single" && op_mid[i] > 0 && sent_by_id.get(&op_mid[i]).map(|x| x.len()).unwrap_or(0) > sent_at_start[i] {
+            if drv == "running" && !faulted && !partial_sent && v.status == "pending" && kinds[i] == "single" && op_mid[i] > 0 && results_by_id.get(&op_mid[i]).copied().unwrap_or(0) > sent_at_start[i] {
                 oracle.get_or_insert(format!("operation {} (message id {}) is still waiting although its response was sent in full", i, op_mid[i]));
             }
             // C12 / C13: on a healthy connection an operation fails with a lost reply channel only if it was abandoned
@@ -358,7 +360,7 @@ fn gen_script(rng: &mut Rng, len: usize, flavour: u64) -> String {
         } else if roll < 62 {
             let (mid, kind) = pick_mid(rng, &g);
             g.toks += 1;
-            let k = if kind == "sd" { *rng.pick(&["e", "e", "e", "r", "i", "d", "d", "o"]) } else if kind == "sa" { *rng.pick(&["e", "e", "e", "r", "i", "d", "d", "o"]) } else { *rng.pick(&["x", "x", "x", "o", "d"]) };
+            let k = if kind == "sd" { *rng.pick(&["e", "e", "e", "r", "i", "d", "d", "o"]) } else if kind == "sa" { *rng.pick(&["e", "e", "e", "r", "i", "d", "d", "o"]) } else { *rng.pick(&["x", "x", "x", "o", "d", "i", "i", "e"]) };
             s.push(format!("R:{}:{}:{}", mid, k, g.toks));
         } else if roll < 66 { s.push(format!("A:{}", *rng.pick(&[1u64, 999, 1000, 1001, 4000, 5000]))); }
         else if roll < 70 {
